@@ -37,6 +37,14 @@ def error_region(g, dom, param):
     if not roots:
         roots = [n for n in g.live_nodes() if n.kind == "branch" and n.polarity is True and
                  isinstance(n.test, ast.Call) and dump(n.test).startswith("%s.get('error'" % param)]
+    if not roots:
+        # the member read into a local first: `error = result['error']` ... `if error:`
+        for n in g.live_nodes():
+            if n.kind == "branch" and n.polarity is True and isinstance(n.test, ast.Name):
+                t = prov.origin(g, n, n.test)
+                if t == ("item", ("param", param), ("const", "error")) or (
+                        t[0] == "call" and t[1] == ("attr", ("param", param), "get") and t[2] and t[2][0] == ("const", "error")):
+                    roots.append(n)
     if len(roots) != 1:
         raise AnalysisError("anchor vanished: the truthiness test of the reply's error member in check_for_errors (found %d)" % len(roots))
     r = roots[0]
